@@ -130,6 +130,29 @@ func runC16(c *Ctx) {
 	c.Reach(r4, wc, "a done context always sends CANCEL", ReachSpec{FromEdge: &ctxDone, Stop: `^call:client\.\(\*Client\)\.send\(%c, new\(wamp\.Cancel\)\)$`, Target: "EXIT", Want: false})
 	c.Has(r4, wc, "error is the context's error", `^call:invoke:context\.Context\.Err\[%ctx\]\(\)$`, 1)
 	c.Has(r4, cl+"SetCallCancelMode", "mode validated", `^store:%c\.&cancelMode=`, 1)
+	scm := cl + "SetCallCancelMode"
+	c.Reach(r4, scm, "every accepted mode (the empty one means the default) is stored", ReachSpec{Stop: `^store:%c\.&cancelMode=`, Target: `^return:nil$`, Want: false})
+	if fn := c.Fn(r4, scm); fn != nil {
+		for _, in := range matches(fn, `^store:%c\.&cancelMode=`) {
+			var leaves []ssa.Value
+			phiLeaves(in.(*ssa.Store).Val, map[ssa.Value]bool{}, &leaves)
+			def := false
+			var other []string
+			for _, l := range leaves {
+				switch d := ir.Desc(l); d {
+				case `"killnowait"`:
+					def = true
+				case "%cancelMode", `"kill"`, `"skip"`:
+				default:
+					other = append(other, d)
+				}
+			}
+			c.R.Check(len(other) == 0, r4, scm, "stored mode is the validated argument or the default", c.pos(in), "stored value can be "+strings.Join(other, ", "))
+			_ = def
+		}
+		emptyArm := clause("empty mode given", T(`^\(%cancelMode == ""\)$`))
+		c.Reach(r4, scm, "the empty mode resets to the default killnowait", ReachSpec{FromEdge: &emptyArm, Stop: `^store:%c\.&cancelMode=(phi\(.*)?"killnowait"`, Target: "EXIT", Want: false})
+	}
 	c.R.Floor(r4, 6)
 
 	const r5 = "C16.R5 one answer per invocation; handler goroutine per new invocation id"
@@ -161,6 +184,7 @@ func runC16(c *Ctx) {
 	hint := cl + "runHandleInterrupt"
 	c.Has(r5, hint, "INTERRUPT cancels the context recorded for that request", `^call:dyn:%c\.invHandlerKill\[%msg\.Request\],ok#0\(\)$`, 1)
 	ruleClientNumericTolerance(c, r5)
+	ruleLastRecvID(c, r5) // "new invocation id" is decided against the highest id seen, which never moves backwards
 	c.R.Floor(r5, 18)
 }
 
@@ -184,6 +208,9 @@ func ruleWaiterRemoved(c *Ctx, r2 string) {
 		closed := clause("waiter channel closed", F(`^select\{recv:%c\.awaitingReply\[%id\],ok#0\.msgs;.*\}#1$`))
 		c.Reach(r2, f, "waiter removed on every exit (except when its channel was closed)", ReachSpec{
 			From: `^select\{recv:%c\.awaitingReply\[%id\],ok#0\.msgs;recv:call:(time|invoke:context)`, Stop: waiterForgotten, Cut: []ir.Clause{closed}, Target: "EXIT", Want: false})
+	}
+	if ab := cl + "abandonCall"; c.P.Func(ab) != nil {
+		c.Reach(r2, ab, "abandonCall releases the waiter on every path", ReachSpec{Stop: waiterForgotten, Target: "EXIT", Want: false})
 	}
 	fr := cl + "forgetReply"
 	found := clause("an entry exists under the id", T(`^%c\.awaitingReply\[%id\],ok#1$`))
